@@ -175,13 +175,34 @@ Definition list_display (l : inklist) : text :=
 
 End Ord.
 
-(* from_other_list + inserts *)
-Definition list_union (a b : inklist) : inklist :=
-  mkList (items_insert_all (l_items b) (l_items a)) (l_origins a) (l_init_names a).
+(* What from_other_list (the copy made by union / without) and list_with_sub_range
+   remember as the origin names of the copy.  READ from ink_list.rs by gen_tables
+   (NativeGen.origin_copy_now):
+     CopyRaw        the receiver's raw `initial_origin_names` field (only meaningful for
+                    a list that was EMPTY) — so `a - a` forgets where it came from;
+     CopyEffective  the receiver's effective origin names (those of its items, or the
+                    remembered ones when it is empty), as the reference runtime's copy
+                    constructor does.
+   Only the SET of names is ever observable (LIST_ALL / LIST_INVERT of an emptied
+   result), so the names are listed in map order without consulting the oracle. *)
+Inductive origin_copy := CopyRaw | CopyEffective.
 
-Definition list_without (a b : inklist) : inklist :=
+Definition names_for_copy (cm : origin_copy) (l : inklist) : list text :=
+  match cm with
+  | CopyRaw => l_init_names l
+  | CopyEffective =>
+      if list_is_empty l then l_init_names l
+      else flat_map (fun kv : listitem * Z =>
+                       match it_origin (fst kv) with Some o => [o] | None => [] end) (l_items l)
+  end.
+
+(* from_other_list + inserts *)
+Definition list_union (cm : origin_copy) (a b : inklist) : inklist :=
+  mkList (items_insert_all (l_items b) (l_items a)) (l_origins a) (names_for_copy cm a).
+
+Definition list_without (cm : origin_copy) (a b : inklist) : inklist :=
   mkList (fold_left (fun m kv => items_remove (fst kv) m) (l_items b) (l_items a))
-         (l_origins a) (l_init_names a).
+         (l_origins a) (names_for_copy cm a).
 
 (* InkList::intersect (and ::has, which is the same function) — a NEW list: no origins *)
 Definition list_intersect (a b : inklist) : inklist :=
@@ -279,14 +300,14 @@ Definition range_max_bound (b : value) : Z :=
                match get_max_item oo l with Some (_, v) => v | None => i32_max end
   | _ => i32_max
   end.
-Definition list_with_sub_range (l : inklist) (minb maxb : value) : inklist :=
+Definition list_with_sub_range (cm : origin_copy) (l : inklist) (minb maxb : value) : inklist :=
   if list_is_empty l then list_new else
   let lo := range_min_bound minb in
   let hi := range_max_bound maxb in
   mkList (items_insert_all
             (filter (fun kv : listitem * Z => (lo <=? snd kv) && (snd kv <=? hi))
                     (get_ordered_items oo l)) [])
-         [] (l_init_names l).
+         [] (names_for_copy cm l).
 
 (* StoryState::push_evaluation_stack on a list value: origins are recomputed from
    get_origin_names.  `std::ptr::eq(e, def)` compares a clone stored in the list
